@@ -9,6 +9,7 @@ import (
 	"os"
 	"os/exec"
 	"strconv"
+	"sort"
 	"strings"
 
 	"github.com/fullstorydev/grpchan/grpchantesting"
@@ -211,6 +212,101 @@ func suiteC19(r *Run) {
 				r.Violate("stubgen/regenerated-differs", "regenerating the repository's own checked-in stubs reproduces them exactly", sprintf("regenerated %d bytes, checked in %d bytes", len(got), len(want)), c, trunc(got, 300))
 			}
 			r.Sample(map[string]interface{}{"case": c, "bytes": len(got), "identical": got == string(want)})
+		}
+	}
+
+	// several files in one request: one declares the messages (and a service), the other imports it and
+	// declares a service over those messages. The stubs do not depend on the order in which the files are
+	// named, and with import_path every file lands in that one Go package (sibling messages unqualified).
+	for iter := 0; iter < r.Budget(8, 60); iter++ {
+		withImportPath := iter%2 == 0
+		withGoPkg := (iter/2)%2 == 1
+		legacy := (iter/4)%2 == 0
+		mk := func(n string) *descriptorpb.DescriptorProto { return &descriptorpb.DescriptorProto{Name: proto.String(n)} }
+		typesPb := &descriptorpb.FileDescriptorProto{
+			Name: proto.String(sprintf("api%d/types.proto", iter)), Package: proto.String("demo.api"), Syntax: proto.String("proto3"),
+			MessageType: []*descriptorpb.DescriptorProto{mk("Req"), mk("Resp")},
+			Service: []*descriptorpb.ServiceDescriptorProto{{Name: proto.String("Aux"), Method: []*descriptorpb.MethodDescriptorProto{
+				{Name: proto.String("Ping"), InputType: proto.String(".demo.api.Req"), OutputType: proto.String(".demo.api.Resp")}}}},
+		}
+		svcPb := &descriptorpb.FileDescriptorProto{
+			Name: proto.String(sprintf("api%d/svc.proto", iter)), Package: proto.String("demo.api"), Syntax: proto.String("proto3"),
+			Dependency: []string{typesPb.GetName()},
+			Service: []*descriptorpb.ServiceDescriptorProto{{Name: proto.String("Greeter"), Method: []*descriptorpb.MethodDescriptorProto{
+				{Name: proto.String("Hello"), InputType: proto.String(".demo.api.Req"), OutputType: proto.String(".demo.api.Resp")},
+				{Name: proto.String("Watch"), InputType: proto.String(".demo.api.Req"), OutputType: proto.String(".demo.api.Resp"), ServerStreaming: proto.Bool(true)}}}},
+		}
+		if withGoPkg {
+			gp := &descriptorpb.FileOptions{GoPackage: proto.String(sprintf("example.com/gen/api%d;apigen", iter))}
+			typesPb.Options, svcPb.Options = gp, proto.Clone(gp).(*descriptorpb.FileOptions)
+		}
+		var params []string
+		if legacy {
+			params = append(params, "legacy_stubs")
+		}
+		if withImportPath {
+			params = append(params, "import_path=example.com/gen/apipb")
+		}
+		gen := func(order []string) (map[string]string, string) {
+			req := &pluginpb.CodeGeneratorRequest{FileToGenerate: order, ProtoFile: []*descriptorpb.FileDescriptorProto{typesPb, svcPb}}
+			if len(params) > 0 {
+				req.Parameter = proto.String(strings.Join(params, ","))
+			}
+			resp, err := runPlugin(req)
+			if err != nil || resp.Error != nil {
+				return nil, fmt.Sprint(err, resp.GetError())
+			}
+			out := map[string]string{}
+			for _, f := range resp.File {
+				out[f.GetName()] += f.GetContent()
+			}
+			return out, ""
+		}
+		a, ea := gen([]string{typesPb.GetName(), svcPb.GetName()})
+		b, eb := gen([]string{svcPb.GetName(), typesPb.GetName()})
+		caseDesc := map[string]interface{}{"op": "two-files-one-request", "params": strings.Join(params, ","), "go_package_option": withGoPkg, "files": "types.proto (messages, service Aux); svc.proto imports it (service Greeter)"}
+		r.Eval(fmt.Sprint("multi-file", iter), true)
+		r.Count("multi-file-requests")
+		if ea != "" || eb != "" {
+			r.Violate("stubgen/plugin-error", "for every proto file, the code the plugin emits is valid Go", ea+" / "+eb, caseDesc, "")
+			continue
+		}
+		for name, src := range b {
+			if _, _, perr := extractBindings(src); perr != nil {
+				r.Violate("stubgen/invalid-go", "the code the plugin emits is valid Go", sprintf("%s: %v", name, perr), caseDesc, trunc(src, 300))
+			}
+			pkgClause, imports := "", ""
+			for _, ln := range strings.Split(src, "\n") {
+				if strings.HasPrefix(ln, "package ") && pkgClause == "" {
+					pkgClause = strings.TrimSpace(strings.TrimPrefix(ln, "package "))
+				}
+				if strings.Contains(ln, "demo_api") || strings.Contains(ln, "\"api") {
+					imports += strings.TrimSpace(ln) + "; "
+				}
+			}
+			if withImportPath && (!strings.HasPrefix(name, "example.com/gen/apipb/") || pkgClause != "apipb" || imports != "") {
+				r.Violate("stubgen/wrong-go-package", "the code the plugin emits is valid Go (every file of the request belongs to the Go package the options assign: import_path)",
+					sprintf("files named [svc, types], options %q: output %q has package clause %q and refers to a sibling package (%s); want a file under example.com/gen/apipb/ in package apipb with the sibling file's messages unqualified", strings.Join(params, ","), name, pkgClause, trunc(imports, 200)), caseDesc, name)
+			}
+		}
+		same := len(a) == len(b)
+		for name, src := range a {
+			if b[name] != src {
+				same = false
+			}
+		}
+		if !same {
+			var an, bn []string
+			for n := range a {
+				an = append(an, n)
+			}
+			for n := range b {
+				bn = append(bn, n)
+			}
+			sort.Strings(an)
+			sort.Strings(bn)
+			r.Violate("stubgen/output-depends-on-file-order", "for every proto file the plugin emits the stubs of that file's services (the same ones whatever the order of the files in the request)",
+				sprintf("options %q: [types, svc] gives %v, [svc, types] gives %v (contents equal: %v)", strings.Join(params, ","), an, bn, same), caseDesc, "")
 		}
 	}
 
